@@ -21,6 +21,7 @@ func init() {
 			"R19.2 also: the per-method handler table is keyed by the verbatim path the registry enumerates. " +
 			"R19.2 also: the routable API's DefaultConsumes/DefaultProduces/ConsumersFor/ProducersFor answer from the registered API, each from its own field. " +
 			"R19.2 also: Build ranges over the recorded methods themselves. " +
+			"R19.1 also: validate reads the description through Document.Spec() only. " +
 			"NOT decided: set arithmetic on concrete inputs; the analyzer's requirement lists (go-openapi/analysis).",
 		Run: runC19,
 	})
